@@ -101,8 +101,8 @@ def prog(t, bits):
 """
 
 
-def value_bound_facts(E, bits):
-    return lib.touched_facts(E, lambda name, idx: z3.ULT(z3.Function(name, *([z3.IntSort()] * len(idx)), z3.BitVecSort(8))(*idx), 1 << bits) if name == "T" else None)
+def value_bound_facts(E, bits, tname="T"):
+    return lib.touched_facts(E, lambda name, idx: z3.ULT(z3.Function(name, *([z3.IntSort()] * len(idx)), z3.BitVecSort(8))(*idx), 1 << bits) if name == tname else None)
 
 
 def roundtrip(run, tier):
@@ -296,8 +296,17 @@ def prog(t, bits):
 
 def dispatch(run, tier):
     """PackedTensor.__torch_dispatch__: any op other than detach/_to_copy/to acts on the unpacked values."""
-    for bits in (2, 4):
-        inst = {"bits": bits, "lemma": "dispatch"}
+    # Complete case split over "any other op": the method can only single out ops it NAMES; every aten op referenced in the file
+    # (other than the three documented ones) is tried, plus an op it cannot name.  Both a plain and a packed second operand.
+    import ast as _ast
+    from qvc.run import REPO as _R
+    named = set()
+    for node in _ast.walk(_ast.parse(open(_R + "/" + PACKED).read())):
+        if isinstance(node, _ast.Attribute) and isinstance(node.value, _ast.Attribute) and node.value.attr == "aten":
+            named.add(node.attr)
+    opnames = ["some_other_op"] + sorted(named - {"detach", "_to_copy", "to"})
+    for bits, opname, second in [(b, o, sk) for b in (2, 4) for o in opnames for sk in ("plain", "packed")]:
+        inst = {"bits": bits, "lemma": "dispatch", "op": opname, "second": second}
         run.count_instance(**inst)
         E, spec = make_engine(run, "ok")
         ds, dpos = lib.dims("d", 2)
@@ -307,49 +316,59 @@ def dispatch(run, tier):
             return ("OPRESULT", args, kwargs)
 
         src = """
-def prog(t, other, bits, OP):
+def prog(t, other, bits, OP, pack_other):
     p = PackedTensor.pack(t, bits)
+    if pack_other:
+        other = PackedTensor.pack(other, bits)
     r = PackedTensor.__torch_dispatch__(OP, (PackedTensor,), (p, other), {"alpha": p})
     return p, r
 """
         prog = E.snippet(src, PACKED)
 
-        class GenericOp:
-            pass
-
         from qvc.values import AtenOp
 
         op = Obj(ExtClass("GenericAtenOverload", {"__call__": Builtin("op", lambda E2, self, *a, **k: generic_op(E2, *a, **k))}))
-        op.fields["overloadpacket"] = AtenOp("some_other_op")
+        op.fields["overloadpacket"] = AtenOp(opname)
 
-        def setup(E2):
+        def setup(E2, second=second):
             for c in dpos:
                 E2.assume(c)
-            return [new_input(E2, "T", "uint8", ds), new_input(E2, "O", "uint8", ds), bits, op], {}
+            return [new_input(E2, "T", "uint8", ds), new_input(E2, "O", "uint8", ds), bits, op, second == "packed"], {}
 
         res = E.explore(prog, setup, name="C04.dispatch")
         run.absorb(E)
-        if not run.expect_paths(res, f"dispatch[b{bits}]", inst):
+        if not run.expect_paths(res, f"dispatch[b{bits}/{opname}/{second}]", inst):
             continue
+        rpd = lambda m, sd, i=dict(inst): replay_dispatch(m, sd, i)
         for pi, r in enumerate(res):
-            tag = f"b{bits}/path{pi}"
+            tag = f"b{bits}/{opname}/{second}/path{pi}"
             if r.outcome == "raise":
-                run.add(f"C04/dispatch-no-exception[{tag}]:{lib.exc_name(r.value)}", r.hyps, z3.BoolVal(False), "property", inst)
+                run.add(f"C04/dispatch-no-exception[{tag}]:{lib.exc_name(r.value)}", r.hyps, z3.BoolVal(False), "property", inst, replay=rpd)
                 continue
             ok = isinstance(r.value, tuple) and isinstance(r.value[1], tuple) and r.value[1][0] == "OPRESULT"
             a = r.value[1][1] if ok else ()
             seen = {"kwargs": r.value[1][2]} if ok else {"kwargs": {}}
-            structural = ok and len(a) == 2 and isinstance(a[0], STensor) and a[1].name == "O" and isinstance(seen["kwargs"].get("alpha"), STensor)
-            run.add(f"C04/dispatch-calls-op-on-unpacked[{tag}]", r.hyps, z3.BoolVal(bool(structural)), "property", inst)
+            structural = ok and len(a) == 2 and isinstance(a[0], STensor) and isinstance(a[1], STensor) and (second == "packed" or a[1].name == "O") \
+                and isinstance(seen["kwargs"].get("alpha"), STensor)
+            run.add(f"C04/dispatch-calls-op-on-unpacked[{tag}]", r.hyps, z3.BoolVal(bool(structural)), "property", inst, replay=rpd)
             if structural:
                 E.ps["touched"] = []
                 tfn = z3.Function("T", z3.IntSort(), z3.IntSort(), z3.BitVecSort(8))
-                for nm, ten in (("arg", a[0]), ("kwarg", seen["kwargs"]["alpha"])):
+                ofn = z3.Function("O", z3.IntSort(), z3.IntSort(), z3.BitVecSort(8))
+                for nm, ten, fn_ in (("arg", a[0], tfn), ("kwarg", seen["kwargs"]["alpha"], tfn)) + ((("arg2", a[1], ofn),) if second == "packed" else ()):
                     ids, inb = idx_vars("i", ds)
+                    if len(ten.shape) != 2:
+                        run.add(f"C04/dispatch-unpacked-values[{tag}]/{nm}", r.hyps, z3.BoolVal(False), "property", inst, replay=rpd)
+                        continue
                     got = ten.elem(ids)
-                    facts = value_bound_facts(E, bits)
+                    facts = value_bound_facts(E, bits) + (value_bound_facts(E, bits, "O") if second == "packed" else [])
                     run.add(f"C04/dispatch-unpacked-values[{tag}]/{nm}", r.hyps + inb + facts,
-                            z3.And(got == tfn(*ids), lib.shape_eq(ten.shape, ds)), "property", inst)
+                            z3.And(got == fn_(*ids), lib.shape_eq(ten.shape, ds)), "property", inst, replay=rpd)
+    for bits in (2, 4):
+        inst = {"bits": bits, "lemma": "dispatch"}
+        E, spec = make_engine(run, "ok")
+        ds, dpos = lib.dims("d", 2)
+        from qvc.values import AtenOp
         # detach / _to_copy keep bits, size, stride and move only the payload; non-uint8 dtype -> ValueError
         src2 = """
 def prog(t, bits, op, kw):
@@ -606,6 +625,38 @@ def replay_roundtrip(model, seed, bits, rank, route="nondet"):
 
 def replay_kernels(model, seed, bits):
     return None  # the compiled kernel cannot be built here: no native replay possible (A-CPP)
+
+
+def replay_dispatch(model, seed, inst):
+    """Named aten ops on packed tensors act on the unpacked values (here: results equal those on plain tensors)."""
+    import torch
+    from optimum.quanto.tensor.qbits.packed import PackedTensor
+
+    bits = inst["bits"]
+    top = 1 << bits
+    vpb = 8 // bits
+    cases = []
+    for rows in (1, 2, 3, 4, 5, 8):
+        a = torch.randint(0, top, (rows, 3), dtype=torch.uint8)
+        cases.append((a, a.clone()))
+        # the same values followed by zero rows, up to the same number of payload rows
+        extra = (-rows) % vpb
+        if extra:
+            b = torch.cat([a, torch.zeros(extra, 3, dtype=torch.uint8)])
+            cases.append((a, b))
+    fns = {"equal": torch.equal, "some_other_op": lambda x, y: torch.equal(x, y)}
+    fn = fns.get(inst.get("op"), torch.equal)
+    for a, b in cases:
+        pa = PackedTensor.pack(a, bits)
+        pb = PackedTensor.pack(b, bits) if inst.get("second") == "packed" else b
+        try:
+            got = fn(pa, pb)
+        except Exception as e:
+            return {"what": f"raises {type(e).__name__}: {str(e)[:120]}", "shapes": [list(a.shape), list(b.shape)]}
+        want = fn(a, b)
+        if got != want:
+            return {"what": f"{inst.get('op')} on packed tensors differs from the op on the unpacked values", "got": got, "want": want, "a": a.tolist(), "b": b.tolist()}
+    return None
 
 
 def replay_file(path):
